@@ -148,6 +148,9 @@ func runWebUI(env *execenv.Env, opts webUIOptions) error {
 
 		srv.SetKeepAlivesEnabled(false)
 		if err := srv.Shutdown(ctx); err != nil {
+			// the requests still running are abandoned, the process exits: close
+			// the cache first, which releases the lock
+			_ = graphqlHandler.Close()
 			log.Fatalf("Could not gracefully shutdown the WebUI: %v\n", err)
 		}
 
